@@ -1,4 +1,4 @@
-import ShexerModel.Lemmas.GenStrLemmas
+import ShexerModel.Lemmas.GenStrShapeName
 /-! # Tie 1, fragment S — string functions regenerated from /repo are the ones the models assume
 
 `GeneratedStr.lean` is rewritten by `harness/extract.py` on every run from the Python AST of
@@ -10,25 +10,13 @@ of C05, C06, C07, C08 - say the regenerated functions equal the hand-written `Nt
 changes the generated definition; if the behaviour changes, a proof below no longer checks (and if the function leaves the
 translatable fragment, the definition disappears and the file no longer builds): the check then reports a broken obligation
 and searches for a failing input. -/
-namespace Shexer.GenStrProps
+/-! This file: `build_shapes_name_for_class_uri` only (obligation of C05). -/
+namespace Shexer.GenStrShapeNameProps
 open Shexer GenStr PyOps
-
-theorem remove_corners_is_model (tok : List Char) : GenS.remove_corners tok true = convNt (Nt.removeCorners tok) :=
-  remove_corners_strict tok
-
-theorem remove_corners_soft_is_model (tok : List Char) : GenS.remove_corners tok false = .ok (Ttl.removeCornersSoft tok) :=
-  remove_corners_soft tok
-
-theorem decide_literal_type_is_nt_model (resolve : List Char → List Char → List Char) (tok : List Char) :
-    GenS.decide_literal_type resolve tok none = convNt (Nt.decideType tok) :=
-  decide_literal_type_nt resolve tok
-
-theorem decide_literal_type_is_ttl_model (resolve : List Char → List Char → List Char) (tok : List Char) (base : Option (List Char)) :
-    GenS.decide_literal_type resolve tok base = convTtl (Ttl.decideType resolve base tok) :=
-  decide_literal_type_ttl resolve tok base
 
 theorem shape_name_is_model (c ns : String) :
     GenS.build_shapes_name_for_class_uri c.toList ns.toList = .ok (Profiler.shapeName c ns).toList :=
   shape_name c ns
 
-end Shexer.GenStrProps
+
+end Shexer.GenStrShapeNameProps
